@@ -225,9 +225,9 @@ CLAIMED = {
 
 # units added after the second and third round of seeded changes (details: ASBUILT.md)
 ADDENDA = {
-    'C03': ' The constructor allocates its tables per instance (two parsers share nothing).',
-    'C05': ' Bounded: get_contigs_with_reads lists a contig iff the index statistics show mapped or placed-unmapped records.',
-    'C06': ' Every pass of MoleculeIterator.__iter__ starts with empty buffers and reset counters.',
+    'C03': ' The constructor allocates its tables per instance (two parsers share nothing). Bounded: parse_barcode_file fills the whitelist table with the index written on the line of each barcode for one-column, barcode-first, index-first and named-index files of two rows (symbolic barcodes over ACGTN), and refuses a three-column file.',
+    'C05': ' Bounded: get_contigs_with_reads lists a contig iff the index statistics show mapped or placed-unmapped records. ReadIterator puts a record into the slot of its mate number; the read group of a read is taken from its own tags.',
+    'C06': ' Every pass of MoleculeIterator.__iter__ starts with empty buffers and reset counters. The bucket keys of CHIC and NlaIII fragments and the site overrides of the molecule classes are under contract; plain Fragment equality compares contig, strand, sample and UMI.',
     'C09': ' The homopolymer rejection of Fragment.__init__ treats a run of a base and of its complement alike (block contract).',
     'C10': ' Bounded: create_count_table judges "inside the contig" with the contig lengths of the BAM file the read comes from (two files).',
     'C11': ' Bounded: the blacklist dictionary built by create_count_table holds every interval of the BED file (3 rows), and the contig lengths are those of the file being read.',
@@ -236,6 +236,10 @@ ADDENDA = {
     'C15': ' Bounded: every aligned base is one observation with confidence 1 - 10^(-Q/10) (10^x uninterpreted).',
     'C16': ' Bounded: FeatureAnnotatedMolecule.annotate queries the strand the stranded flag prescribes and reports exactly the features the container returned.',
     'C17': ' blacklisted_binning_contigs tiles every contig once, over its whole length, against the blacklist intervals of that contig (loop contract over any number of contigs).',
+    'C04': ' Header parsing (_parse_illumina_header) and __repr__ of TaggedRecord are under contract for the three Illumina header variants.',
+    'C08': ' generate_tasks yields every contig region of the requested bin size once (loop contract).',
+    'C12': ' obtain_counts merges the per-job dictionaries by addition in any completion order (bounded: two jobs); get_contig_size takes the length from the file asked (bounded: two files).',
+    'C18': ' has_location gives the same answer as the table in eager, lazy and cache mode, also for a contig the VCF lacks.',
     'C19': ' The constructor creates per-instance state (no shared seen-set / handle table).',
     'C20': ' run_multiome_tagging overwrites a stale success marker before the old output or its index is removed (typestate monitor with failing steps); run_tagging_tasks accumulates every task (shared with C05).',
 }
